@@ -57,6 +57,10 @@ Proof.
   intros H. apply andb_prop in H as [_ H]. exact (IH H).
 Qed.
 
+(* a canonical line is a chunk of text that is empty or ends with LF (chunk_end: what a plain element of a fresh file must be) *)
+Lemma canon_chunk s : canonical s = true -> chunk_end s = true.
+Proof. intros H. unfold chunk_end. rewrite (canonical_ends_lf s H). apply orb_true_r. Qed.
+
 (* ---------------------------------------------------------------- a body line with the names substituted *)
 Definition vals_ident (tb : list (string * string)) : bool := forallb (fun kv => allc identc (snd kv)) tb.
 
@@ -154,7 +158,7 @@ Definition o_keys (ois : list oitem) : list string := flat_map (fun oi => match 
 (* what is needed of an item anywhere but (for a plain line) at the very end of the file *)
 Definition o_ok (oi : oitem) : Prop :=
   match oi with
-  | OPlain s => is_tag (tab4 s) = false /\ wf_itemb (PreserveCore.Plain s) = true /\ no_char CR s = true /\ canonical s = true
+  | OPlain s => is_tag (tab4 s) = false /\ wf_itemb (PreserveCore.Plain s) = true /\ no_char CR s = true /\ chunk_end s = true
   | OPair s => is_tag (tab4 s) = true /\ wf_itemb (PreserveCore.Pair s s) = true /\ no_char CR s = true /\ canonical s = true
   end.
 (* the last line of a file may lack its newline *)
@@ -183,7 +187,7 @@ Qed.
 
 Definition strong (it : PreserveCore.item string) : Prop :=
   match it with
-  | PreserveCore.Plain l => no_char CR l = true /\ canonical l = true
+  | PreserveCore.Plain l => no_char CR l = true /\ chunk_end l = true
   | PreserveCore.Pair o c => canonical o = true /\ no_char CR o = true /\ canonical c = true /\ no_char CR c = true
   end.
 
@@ -193,7 +197,7 @@ Proof.
   cbn [app]. destruct x as [l|o c]; cbn [strong] in H1.
   - destruct H1 as [C1 C2]. destruct (a ++ b) as [|y r] eqn:E; cbn [items_okb].
     + exact C1.
-    + rewrite C1, (canonical_ends_lf l C2), orb_true_r. exact IH.
+    + unfold chunk_end in C2. rewrite C1, C2. exact IH.
   - destruct H1 as (C1 & C2 & C3 & C4). destruct (a ++ b) as [|y r] eqn:E; cbn [items_okb].
     + unfold last_ok. rewrite C1, C2, C3, C4. reflexivity.
     + rewrite C1, C2, C3, C4. exact IH.
@@ -274,7 +278,7 @@ Proof.
   - destruct (closed_line l) eqn:C.
     + rewrite (subst_closed tb l C). unfold closed_plain_ok in Hok.
       apply andb_prop in Hok as [Hok H4]. apply andb_prop in Hok as [Hok H3]. apply andb_prop in Hok as [H1 H2].
-      apply negb_true_iff in H1. auto.
+      apply negb_true_iff in H1. pose proof (canon_chunk _ H4). auto.
     + pose proof (sym_lits _ _ Hok) as L.
       assert (L1 : lits_sat (no_char LBR) l = true).
       { revert L. apply lits_sat_impl. intros s K. unfold plain_lit_ok in K. repeat (apply andb_prop in K as [K ?]). exact K. }
@@ -293,7 +297,7 @@ Proof.
            apply no_char_split_lines. apply no_char_tab4; [reflexivity|exact B].
         -- rewrite kpfx_is_tag, (no_lbr_not_tag _ (kof_no_char LBR s N B)). reflexivity.
       * apply copy_no_char; try assumption; reflexivity.
-      * apply copy_canonical; assumption.
+      * apply canon_chunk. apply copy_canonical; assumption.
   - pose proof (sym_lits _ _ Hok) as L.
     assert (L1 : lits_sat (no_char TAB) l = true).
     { revert L. apply lits_sat_impl. intros s K. unfold pair_lit_ok in K. repeat (apply andb_prop in K as [K ?]). exact K. }
@@ -472,13 +476,35 @@ Fixpoint oitems (e : elements) (t : template16) : list oitem :=
   | Raw s :: r => OPlain s :: oitems e r
   | Block k _ _ body :: r => block_oitems (table_of_kind k) (items_of e k) body ++ oitems e r
   | SigBlock _ _ body :: r => block_oitems sig_table (el_sigs e) body ++ oitems e r
-  | TransBlock _ _ _ :: r => oitems e r
-  | EvBlock _ _ _ :: r => oitems e r
+  | TransBlock ib ie body :: r => map OPlain (ref_item16 e (TransBlock ib ie body)) ++ oitems e r
+  | EvBlock ib ie body :: r => map OPlain (ref_item16 e (EvBlock ib ie body)) ++ oitems e r
   | MsgBlock _ _ _ _ :: r => oitems e r
-  | InitLine _ :: r => oitems e r
-  | TableLine _ _ :: r => oitems e r
+  | InitLine l :: r => map OPlain (ref_item16 e (InitLine l)) ++ oitems e r
+  | TableLine pre ee :: r => map OPlain (ref_item16 e (TableLine pre ee)) ++ oitems e r
   | UserLine l :: r => OPlain (ref_line (el_user e) l) :: oitems e r
   end.
+
+(* plain output lines as items *)
+Lemma plain_items : forall ls, forallb chunk_plain_ok ls = true ->
+  flat_map o_lines (map OPlain ls) = ls /\ Forall o_ok (map OPlain ls) /\ o_keys (map OPlain ls) = [].
+Proof.
+  induction ls as [|s ls IH]; intros H; [split; [reflexivity|split; [constructor|reflexivity]]|].
+  cbn [forallb] in H. apply andb_prop in H as [Hs H]. destruct (IH H) as (I1 & I2 & I3).
+  unfold chunk_plain_ok in Hs. apply andb_prop in Hs as [Hs P4]. apply andb_prop in Hs as [Hs P3]. apply andb_prop in Hs as [P1 P2].
+  apply negb_true_iff in P1. split; [cbn [map flat_map o_lines app]; rewrite I1; reflexivity|]. split.
+  - cbn [map]. constructor; [cbn; auto|exact I2].
+  - cbn [map]. unfold o_keys in *. cbn [flat_map app]. exact I3.
+Qed.
+
+Lemma dyn_step e r ls (I : flat_map o_lines (oitems e r) = flat_map (ref_item16 e) r /\ good (oitems e r) /\ o_keys (oitems e r) = keys07 e r) :
+  forallb chunk_plain_ok ls = true ->
+  flat_map o_lines (map OPlain ls ++ oitems e r) = ls ++ flat_map (ref_item16 e) r
+  /\ good (map OPlain ls ++ oitems e r) /\ o_keys (map OPlain ls ++ oitems e r) = keys07 e r.
+Proof.
+  intros H. destruct I as (I1 & I2 & I3). destruct (plain_items ls H) as (P1 & P2 & P3). split; [rewrite flat_map_app, P1, I1; reflexivity|]. split.
+  - apply good_app; assumption.
+  - unfold o_keys in *. rewrite flat_map_app, P3, I3. reflexivity.
+Qed.
 
 Definition names_fine (e : elements) : Prop := forall n, In n (all_names e) -> name_ok n = true.
 
@@ -495,42 +521,47 @@ Proof.
 Qed.
 
 Theorem oitems_spec e : names_fine e -> forall t,
-  texts_ok07 t = true -> user_lines_plain e t = true -> forallb item16_ok t = true ->
+  texts_ok07 t = true -> user_lines_plain e t = true -> dyn_lines_plain e t = true -> forallb item16_ok t = true ->
   flat_map o_lines (oitems e t) = flat_map (ref_item16 e) t
   /\ good (oitems e t) /\ o_keys (oitems e t) = keys07 e t.
 Proof.
-  intros Hn. fix IH 1. intros t Ht Hu Hg. destruct t as [|it r]; [split; [reflexivity|split; [constructor|reflexivity]]|].
+  intros Hn. fix IH 1. intros t Ht Hu Hd Hg. destruct t as [|it r]; [split; [reflexivity|split; [constructor|reflexivity]]|].
   cbn [forallb] in Hg. apply andb_prop in Hg as [Hi Hg].
   unfold user_lines_plain in Hu. cbn [forallb] in Hu. apply andb_prop in Hu as [Hu1 Hu]. fold (user_lines_plain e r) in Hu.
-  destruct it as [l|s|k ib ie body|ib ie body|ib ie body|ib ie body|ib ie sfx body|il|ul|pre ee]; cbn [texts_ok07 oitems keys07 flat_map ref_item16] in *; [| | | |discriminate|discriminate|discriminate|discriminate| |discriminate].
+  unfold dyn_lines_plain in Hd. cbn [forallb] in Hd. apply andb_prop in Hd as [Hd1 Hd]. fold (dyn_lines_plain e r) in Hd.
+  destruct it as [l|s|k ib ie body|ib ie body|ib ie body|ib ie body|ib ie sfx body|il|ul|pre ee]; cbn [dyn_item] in Hd1;
+    [| | | |exact (dyn_step e r _ (IH r Ht Hu Hd Hg) Hd1)|exact (dyn_step e r _ (IH r Ht Hu Hd Hg) Hd1)|discriminate
+     |exact (dyn_step e r _ (IH r Ht Hu Hd Hg) Hd1)| |exact (dyn_step e r _ (IH r Ht Hu Hd Hg) Hd1)];
+    cbn [texts_ok07 oitems keys07 flat_map ref_item16] in *.
   - destruct (is_tag (tab4 (l ++ nl_str))) eqn:T.
     + destruct r as [|[l'| | | | | | | | |] r']; try discriminate. apply andb_prop in Ht as [Ht Hr]. apply andb_prop in Ht as [El Hp].
       apply String.eqb_eq in El. subst l'. cbn [forallb] in Hg. apply andb_prop in Hg as [_ Hg].
       unfold user_lines_plain in Hu. cbn [forallb] in Hu. apply andb_prop in Hu as [_ Hu]. fold (user_lines_plain e r') in Hu.
-      destruct (IH r' Hr Hu Hg) as (I1 & I2 & I3). unfold closed_pair_ok in Hp.
+      unfold dyn_lines_plain in Hd. cbn [forallb] in Hd. apply andb_prop in Hd as [_ Hd]. fold (dyn_lines_plain e r') in Hd.
+      destruct (IH r' Hr Hu Hd Hg) as (I1 & I2 & I3). unfold closed_pair_ok in Hp.
       apply andb_prop in Hp as [Hp P4]. apply andb_prop in Hp as [Hp P3]. apply andb_prop in Hp as [P1 P2].
       split; [cbn [flat_map o_lines ref_item16 app]; rewrite I1; reflexivity|]. split.
       * apply good_cons; [cbn; auto|exact I2].
       * cbn [o_keys flat_map app]. fold (o_keys (oitems e r')). rewrite I3. reflexivity.
-    + apply andb_prop in Ht as [Hp Hr]. destruct (IH r Hr Hu Hg) as (I1 & I2 & I3). unfold closed_plain_ok in Hp.
-      apply andb_prop in Hp as [Hp P4]. apply andb_prop in Hp as [Hp P3]. apply andb_prop in Hp as [_ P2].
+    + apply andb_prop in Ht as [Hp Hr]. destruct (IH r Hr Hu Hd Hg) as (I1 & I2 & I3). unfold closed_plain_ok in Hp.
+      apply andb_prop in Hp as [Hp P4]. apply andb_prop in Hp as [Hp P3]. apply andb_prop in Hp as [_ P2]. pose proof (canon_chunk _ P4) as P5.
       split; [cbn [flat_map o_lines app]; rewrite I1; reflexivity|]. split.
       * apply good_cons; [cbn; auto|exact I2].
       * cbn [o_keys flat_map app]. exact I3.
   - apply andb_prop in Ht as [Ht Hr]. apply andb_prop in Ht as [Ht Pc]. apply andb_prop in Ht as [Ht P3]. apply andb_prop in Ht as [P1 P2].
-    apply negb_true_iff in P1. destruct (IH r Hr Hu Hg) as (I1 & I2 & I3).
+    apply negb_true_iff in P1. destruct (IH r Hr Hu Hd Hg) as (I1 & I2 & I3).
     split; [cbn [flat_map o_lines app]; rewrite I1; reflexivity|]. split; [|cbn [o_keys flat_map app]; exact I3].
     destruct r as [|it' r'].
     + cbn [oitems]. apply good_last. cbn. auto.
-    + apply good_cons; [cbn; auto|exact I2].
-  - apply andb_prop in Ht as [Hb Hr]. destruct (IH r Hr Hu Hg) as (I1 & I2 & I3).
+    + pose proof (canon_chunk _ Pc). apply good_cons; [cbn; auto|exact I2].
+  - apply andb_prop in Ht as [Hb Hr]. destruct (IH r Hr Hu Hd Hg) as (I1 & I2 & I3).
     cbn [item16_ok] in Hi. apply andb_prop in Hi as [_ Hbl].
     destruct (block_good_keys (table_of_kind k) (keys_of k) (keys_same k) (items_of e k) body Hb Hbl
                (fun x i Hx => kind_table_ident k x i (items_names e k x Hn Hx))) as [G K].
     split; [rewrite flat_map_app, (block_lines _ _ _ Hb), I1; reflexivity|]. split.
     * apply good_app; assumption.
     * unfold o_keys in *. rewrite flat_map_app, K, I3. reflexivity.
-  - apply andb_prop in Ht as [Hb Hr]. destruct (IH r Hr Hu Hg) as (I1 & I2 & I3).
+  - apply andb_prop in Ht as [Hb Hr]. destruct (IH r Hr Hu Hd Hg) as (I1 & I2 & I3).
     cbn [item16_ok] in Hi. apply andb_prop in Hi as [_ Hbl].
     destruct (block_good_keys sig_table sig_keys sig_keys_same (el_sigs e) body Hb Hbl
                (fun x i Hx => sig_table_ident x i (proj1 (sigs_names e x Hn Hx)) (proj2 (sigs_names e x Hn Hx)))) as [G K].
@@ -538,8 +569,8 @@ Proof.
     * apply good_app; assumption.
     * unfold o_keys in *. rewrite flat_map_app, K, I3. reflexivity.
   - (* a line with user tags: a plain line of the output *)
-    destruct (IH r Ht Hu Hg) as (I1 & I2 & I3). apply andb_prop in Hu1 as [Hu1 _]. unfold closed_plain_ok in Hu1.
-    apply andb_prop in Hu1 as [Hp P4]. apply andb_prop in Hp as [Hp P3]. apply andb_prop in Hp as [P1 P2]. apply negb_true_iff in P1.
+    destruct (IH r Ht Hu Hd Hg) as (I1 & I2 & I3). apply andb_prop in Hu1 as [Hu1 _]. unfold closed_plain_ok in Hu1.
+    apply andb_prop in Hu1 as [Hp P4]. apply andb_prop in Hp as [Hp P3]. apply andb_prop in Hp as [P1 P2]. apply negb_true_iff in P1. pose proof (canon_chunk _ P4).
     split; [cbn [flat_map o_lines app]; rewrite I1; reflexivity|]. split.
     * apply good_cons; [cbn; auto|exact I2].
     * cbn [o_keys flat_map app]. exact I3.
@@ -547,12 +578,28 @@ Qed.
 
 (* the expanded file of a template of the two grammars, for element lists with admissible names and pairwise distinct
    cleaned tag names, is a well-formed fresh file *)
+(* ... with transition blocks / per-event signature blocks / initial-state lines / the transition-table line, whose output lines under the
+   element record are plain lines (dyn_lines_plain, computed) *)
+Theorem fresh_of_template_x e t :
+  names_fine e -> texts_ok07 t = true -> user_lines_plain e t = true -> dyn_lines_plain e t = true -> forallb item16_ok t = true ->
+  NoDup (keys07 e t) -> wf_fresh_file (flat_map (ref_item16 e) t) = true.
+Proof.
+  intros Hn Ht Hu Hd Hg Hk. destruct (oitems_spec e Hn t Ht Hu Hd Hg) as (L & G & K).
+  rewrite <- L. apply good_fresh; [exact G|rewrite K; exact Hk].
+Qed.
+
+Lemma inky_dyn e : forall t, inky t = true -> dyn_lines_plain e t = true.
+Proof.
+  unfold inky, dyn_lines_plain. induction t as [|it t IH]; [reflexivity|]. cbn [forallb]. intros H. apply andb_prop in H as [H1 H2].
+  rewrite (IH H2), andb_true_r. destruct it; cbn [dyn_item]; first [reflexivity|discriminate].
+Qed.
+
 Theorem fresh_of_template e t :
   names_fine e -> in_grammar07 t = true -> user_lines_plain e t = true -> forallb item16_ok t = true -> NoDup (keys07 e t) ->
   wf_fresh_file (flat_map (ref_item16 e) t) = true.
 Proof.
-  intros Hn Ht Hu Hg Hk. unfold in_grammar07 in Ht. apply andb_prop in Ht as [Ht _]. destruct (oitems_spec e Hn t Ht Hu Hg) as (L & G & K).
-  rewrite <- L. apply good_fresh; [exact G|rewrite K; exact Hk].
+  intros Hn Ht Hu Hg Hk. unfold in_grammar07 in Ht. apply andb_prop in Ht as [Ht Hi].
+  exact (fresh_of_template_x e t Hn Ht Hu (inky_dyn e t Hi) Hg Hk).
 Qed.
 
 (* ---------------------------------------------------------------- admissible names make the per-instance conditions of C16 true *)
